@@ -143,7 +143,7 @@ def family(tier):
                                       "(deflayer l1 _ (switch () _ break))", qmax=2, track_hist=False, quick=False)
     # two chords v2 that share no key can be active at the same time (release tracking of every active chord)
     add("chv2_two_disjoint", "abcd", "(defchordsv2 (a b) x 3 all-released () (c d) y 3 all-released ())\n"
-                                     "(deflayer l0 a b c d)", opts="concurrent-tap-hold yes chords-v2-min-idle 5", qmax=2, chv2=2)
+                                     "(deflayer l0 a b c d)", opts="concurrent-tap-hold yes chords-v2-min-idle 5", qmax=2, chv2=2, fixprobe=True, quick=False)
     add("holdfor_x_oneshot", "ab", "(defvirtualkeys v (one-shot 2 lsft))\n(deflayer l0 (hold-for-duration 3 v) x)",
         qmax=3, osbound=3, quick=False)
     return F
@@ -166,6 +166,19 @@ def mc_one(name, kbd, keynames, io, wd):
         inst["extra_guard"] = "/\\ Len(K.L.chv2.q) + Len(K.L.queue) < QMax"
         inst["constraint"] = "AchBound"
         inst["extra_defs"] = "AchBound == Len(K.L.chv2.ach) <= %d" % io["chv2"]
+    if io.get("fixprobe"):
+        # bound-free form of R2 for large instances: in a state with no physical key down on which a tick changes
+        # nothing any more, nothing may be down at the OS and kanata must be idle (it will stay like this for ever).
+        # No monitor state in the graph; a hit is printed as a model counterexample and judged on the code by P_C01.
+        del inst["monitor"]
+        inst["extra_defs"] = inst.get("extra_defs", "") + (
+            "\nC01Fix == phys = {} /\\ K.L.panic = \"\" /\\ LET s == StepTick(K) IN s.K.out = <<>> /\\ "
+            "[s.K EXCEPT !.out = <<>>] = [K EXCEPT !.out = <<>>]\n"
+            "C01Probe == ~(C01Fix /\\ (K.prev # <<>> \\/ ~IsIdle(K))) \\/ PrintT(<<\"MONERR\", ToJson([h |-> hist, err |-> "
+            "\"L1: quiescent state with output down or not idle\"])>>)")
+        inst["invariants"] = ["C01Probe"]
+        if io.get("chv2"):
+            inst["view"] = "<<CvCanonK(K), phys>>"
     if io.get("seqbound"):
         # overlapping macros multiply the cursor positions: the exhaustive instances stop at `seqbound`
         # simultaneously running macros, the burst scripts go beyond the 4-slot ring on the real code
@@ -576,6 +589,39 @@ def burst_jobs(tier, rng):
             release_all(s, down, rng, rng.choice([0, 1]))
             scripts.append(s)
         job("queue_wrap_conc_" + conc, kbd, scripts)
+    # ---- which event does the overflow evict?  A key of every deciding / state-creating kind is pressed (processed
+    # or still queued), then released inside a tick-free burst whose length makes the 32-slot queue evict exactly
+    # 1..4 oldest events: the key's own press, its own release while it is still undecided, or filler taps
+    for conc in ("no", "yes"):
+        kbd = ("(defcfg concurrent-tap-hold %s process-unmapped-keys yes)\n(defsrc a b c d e f g)\n"
+               "(deflayer l0 (tap-hold 200 200 q lsft) (tap-hold-press 200 200 w lctl) (tap-hold-release 200 200 e lalt) "
+               "(one-shot 300 rsft) (layer-while-held l1) (tap-dance 150 (x y)) (multi mlft lmet))\n"
+               "(deflayer l1 1 2 3 4 _ 5 6)\n" % conc)
+        fillers = [C(k) for k in "uiopjklnm"]
+        scripts = []
+        for key in "abcdefg":
+            for tb in (0, 1, 3):
+                for pre in (0, 1):
+                    for m in (1, 2, 3, 4):
+                        s = [["d", C(key)]]
+                        if tb:
+                            s.append(["t", tb])
+                        burst = []
+                        fi = 0
+                        for _ in range(pre):
+                            burst += [["d", fillers[fi % 9]], ["u", fillers[fi % 9]]]
+                            fi += 1
+                        burst.append(["u", C(key)])
+                        queued = 1 if tb == 0 else 0          # the press itself is still in the queue
+                        while queued + len(burst) < 32 + m:
+                            burst += [["d", fillers[fi % 9]], ["u", fillers[fi % 9]]]
+                            fi += 1
+                        s += burst
+                        s.append(["t", 1])
+                        scripts.append(s)
+        if tier == "quick":
+            scripts = [x for i, x in enumerate(scripts) if i % 2 == (0 if conc == "no" else 1)]
+        job("evicted_event_conc_" + conc, kbd, scripts)
     # ---- 65+ simultaneously active states (process-unmapped-keys yes): the 64-entry state vector is full
     kbd = ("(defcfg process-unmapped-keys yes)\n(defsrc a b c d)\n"
            "(deflayer l0 (multi lsft lctl lalt) (layer-while-held l1) (multi mlft (unicode r)) d)\n(deflayer l1 _ _ _ (multi rsft rctl))\n")
@@ -666,6 +712,67 @@ def burst_jobs(tier, rng):
 
 
 # ------------------------------------------------------------------ (c) features L1 does not model + random grammar
+def overlap_histories(kbd, keys, nums, rng, limit):
+    """Two things active at the same time, every release order: a unit is one key or the key set of one chord
+    (defchordsv2 / defchords participants); for every ordered pair of disjoint units: activate the first, keep it,
+    activate the second, then release second-then-first and first-then-second, with a short and a long gap."""
+    C = cfgdesc.code
+    units = [[k] for k in keys]
+    for m in re.finditer(r"\(defchordsv2\s+(.*)\)\s*$", kbd, flags=re.M):
+        toks = tokens(m.group(1))
+        i = 0
+        while i < len(toks):            # entries: (keys) action timeout release (layers)
+            if toks[i] == "(":
+                j = toks.index(")", i)
+                ks = toks[i + 1:j]
+                if ks and all(k in keys for k in ks) and len(ks) >= 2:
+                    units.append(ks)
+                # skip the action (atom or list), timeout, release behaviour and the disabled-layer list
+                i = j + 1
+                depth = 0
+                seen = 0
+                while i < len(toks) and seen < 4:
+                    if toks[i] == "(":
+                        depth += 1
+                    elif toks[i] == ")":
+                        depth -= 1
+                    if depth == 0:
+                        seen += 1
+                    i += 1
+            else:
+                i += 1
+    long_gap = max([n for n in nums if n < 2000] + [5]) + 5
+    out = []
+    for u1 in units:
+        for u2 in units:
+            if set(u1) & set(u2):
+                continue
+            for order in ("21", "12"):
+                for gap in (2, long_gap):
+                    s = []
+                    for k in u1:
+                        s.append(["d", C(k)])
+                    s.append(["t", gap])
+                    for k in u2:
+                        s.append(["d", C(k)])
+                    s.append(["t", gap])
+                    first, second = (u2, u1) if order == "21" else (u1, u2)
+                    for k in first:
+                        s.append(["u", C(k)])
+                    s.append(["t", gap])
+                    for k in second:
+                        s.append(["u", C(k)])
+                    s.append(["t", 1])
+                    out.append(s)
+    # pairs of multi-key units (two chords active together) first, then a sample of the rest
+    out.sort(key=lambda x: -sum(1 for e in x if e[0] == "d"))
+    if len(out) > limit:
+        head = [x for x in out if sum(1 for e in x if e[0] == "d") >= 4][:limit]
+        rest = [x for x in out if x not in head]
+        out = head + rng.sample(rest, max(0, limit - len(head)))
+    return out
+
+
 def extra_feature_jobs(tier, rng):
     """hand-written latch-free configurations for the features the detailed model does not cover; random
     physically consistent histories (recorded traces only)"""
@@ -675,6 +782,10 @@ def extra_feature_jobs(tier, rng):
               "(deflayer l0 a b (tap-hold 100 100 c lsft) d)\n"
               "(defchordsv2 (a b) x 50 all-released () (a b c) S-y 80 first-release () (c d) (one-shot 100 lctl) 60 all-released ()"
               " (a d) (macro z 10 S-w) 40 first-release ())\n", "abcd", {}))
+    X.append(("chordsv2_disjoint", "(defcfg concurrent-tap-hold yes process-unmapped-keys yes chords-v2-min-idle 5)\n"
+              "(defsrc a b c d e f)\n(deflayer l0 a b c d e f)\n"
+              "(defchordsv2 (a b) x 30 all-released () (c d) S-y 30 all-released () (e f) mlft 30 first-release ())\n",
+              "abcdef", {}))
     for mode in ("visible-backspaced", "hidden-suppressed", "hidden-delay-type"):
         X.append(("defseq_" + mode, "(defcfg sequence-timeout 50 sequence-input-mode %s)\n(defsrc a b c d e)\n"
                   "(deflayer l0 sldr a b (multi lsft c) (sequence 30 hidden-delay-type))\n"
@@ -699,6 +810,7 @@ def extra_feature_jobs(tier, rng):
         scripts = []
         dur = 0
         nums = [int(t) for t in tokens(kbd) if re.fullmatch(r"\d+", t)]
+        scripts += overlap_histories(kbd, keys, nums, rng, 40 if tier == "quick" else 400)
         for _ in range(ns):
             s = cfggen.gen_history(rng, codes, rng.choice([10, 30, 80] if tier == "quick" else [10, 30, 80, 300]), False,
                                    numbers=nums, floods=rng.random() < 0.2, long_gaps=False, focus=codes, tail=0)
